@@ -16,6 +16,12 @@ Op formats (shared with the driver):
 case["alt"][i] = 1 selects the other spelling of the same call
 (register_language(name, pattern=…) instead of a LanguageDesc;
 generator_for_language_target instead of generator_description).
+
+The argument of the *_for_file calls is a `file_name_or_pattern`: the universes
+contain, for every pattern, the pattern text itself, a file name derived from it
+and a near miss; patterns include fnmatch character classes (`[…]`, `[!…]`,
+ranges, unclosed `[`, bracketed literal names), for which a pattern does not
+accept its own text.
 """
 import fnmatch
 
@@ -48,6 +54,88 @@ def pat_matches(pattern, f):
     return pattern is not None and (f == pattern or fnmatch.fnmatchcase(f, pattern))
 
 
+def pat_tokens(p):
+    """the units of an fnmatch pattern: '*', '?', ('lit', c), ('cls', negated, text)"""
+    out, i, n = [], 0, len(p)
+    while i < n:
+        c = p[i]
+        i += 1
+        if c in "*?":
+            out.append(c)
+        elif c == "[":
+            j = i
+            if j < n and p[j] == "!":
+                j += 1
+            if j < n and p[j] == "]":
+                j += 1
+            while j < n and p[j] != "]":
+                j += 1
+            if j >= n:
+                out.append(("lit", "["))
+            else:
+                body = p[i:j]
+                neg = body.startswith("!")
+                out.append(("cls", neg, body[1:] if neg else body))
+                i = j + 1
+        else:
+            out.append(("lit", c))
+    return out
+
+
+def class_items(body):
+    """members of a class text as (lo, hi) pairs, read left to right"""
+    items, i = [], 0
+    while i < len(body):
+        if i + 2 < len(body) and body[i + 1] == "-":
+            items.append((body[i], body[i + 2]))
+            i += 3
+        else:
+            items.append((body[i], body[i]))
+            i += 1
+    return items
+
+
+def outside_model(p):
+    """CPython re-reads a `!` that follows leading empty ranges of a class (`[b-a!x]`) as a
+    negation; the Lean matcher does not mirror that corner (oracle only for such patterns)."""
+    for t in pat_tokens(p):
+        if isinstance(t, tuple) and t[0] == "cls" and not t[1]:
+            it = class_items(t[2])
+            while it and it[0][0] > it[0][1]:
+                it = it[1:]
+            if it and it[0][0] == "!":
+                return True
+    return False
+
+
+FILL = "xyab1c.d/"
+
+
+def derive_file(p, rng, miss=False):
+    """a text built from the pattern unit by unit (generation aid only: the oracle decides
+    matching with fnmatch itself): `*` a short run, `?` a character, a class one of its
+    members; `miss` replaces one single-character unit by a character it refuses"""
+    toks = pat_tokens(p)
+    singles = [i for i, t in enumerate(toks) if isinstance(t, tuple)]
+    bad = rng.choice(singles) if (miss and singles) else -1
+    out = []
+    for i, t in enumerate(toks):
+        if t == "*":
+            out.append("".join(rng.choice(FILL) for _ in range(rng.weighted([(0, 2), (1, 4), (2, 2)]))))
+        elif t == "?":
+            out.append(rng.choice(FILL))
+        elif t[0] == "lit":
+            out.append(t[1] if i != bad else ("q" if t[1] != "q" else "w"))
+        else:
+            items = class_items(t[2])
+            inside = lambda c: any(lo <= c <= hi for lo, hi in items)
+            cand = sorted(set(FILL + "0129-]![^z" + "".join(lo + hi for lo, hi in items)))
+            want = (not t[1]) != (i == bad)
+            ok = [c for c in cand if inside(c) == want]
+            out.append(rng.choice(ok) if ok else "q")
+    return "".join(out)
+
+
 class Ref:
     """Reference reading of the statement.  `check(op, res)` returns a failure
     text or None and advances the reference state by what the statement says
@@ -77,6 +165,15 @@ class Ref:
     # -- helpers
     def _matching(self, f):
         return [d for d in self.L.values() if pat_matches(d[2], f)]
+
+    def _match_features(self, f, exp):
+        for d in exp:
+            if "[" in d[2]:
+                self.features.add("class-pattern")
+            if d[2] == f:
+                self.features.add("pattern-as-query")
+                if not fnmatch.fnmatchcase(f, d[2]):
+                    self.features.add("pattern-not-self-matching")
 
     def _expect_mm(self, d, kw, res, what):
         """the call must (re)create the meta-model of language d with kwargs kw"""
@@ -188,6 +285,7 @@ class Ref:
                 return f"{what}: languages whose pattern matches are {sorted(d[0] for d in exp)}, got {got}"
             if exp:
                 self.features.add("file-match")
+                self._match_features(op[1], exp)
             return None
         if tag == "file":
             exp = self._matching(op[1])
@@ -195,6 +293,7 @@ class Ref:
                 if res[0] != "desc" or not self._desc_ok(res[1:], exp[0]):
                     return f"{what}: exactly one language matches ({exp[0][0]}), got {res}"
                 self.features.add("file-match")
+                self._match_features(op[1], exp)
                 return None
             if res != ["reg_error"]:
                 return f"{what}: {len(exp)} languages match, expected TextXRegistrationError, got {res}"
@@ -331,14 +430,28 @@ class Ref:
 # --------------------------------------------------------------------------
 # universes
 # --------------------------------------------------------------------------
-PATTERNS = ["*.a", "*.b", None]
-FILES = ["x.a", "y.b", "z.c"]
-WIDE_PATTERNS = ["*.a", "*.b", None, "x.*", "?.a", "x.a", "*", "", "*.A", "x*y.a", "??.b"]
-WIDE_FILES = ["x.a", "y.b", "z.c", "*.a", "xy.a", "x.A", "xzzy.a", "", "x.", "ab.b", "x.a.b"]
+# small universe (state exploration): a plain pattern, a class pattern (accepts y.b and z.c, not
+# its own text), no pattern; queries: a file per pattern, a file nobody accepts, both pattern texts
+PATTERNS = ["*.a", "*.[bc]", None]
+FILES = ["x.a", "y.b", "z.d", "*.[bc]", "*.a"]
+PLAIN_PATTERNS = ["*.a", "*.b", None, "x.*", "?.a", "x.a", "*", "", "*.A", "x*y.a", "??.b", "d/*.a", "*/x.b"]
+# character classes: set, negated set, range, `]` / `-` as members, unclosed `[` (a literal),
+# bracketed literal file names, empty range, negated empty range, `^` / `[` as first member
+CLASS_PATTERNS = ["*.[ab]", "*.[ch]dr", "r[1].b", "x[0-9].a", "[!x]*.a", "?[!a-c].b", "[]x].a", "x[.a", "*.[a-",
+                  "x[a-].b", "x[z-a].a", "x[!z-a].a", "[^x].a", "[[]x.a", "*.[!]", "x[!]].a", "[a-b-d].a"]
+WIDE_PATTERNS = PLAIN_PATTERNS + CLASS_PATTERNS
+WIDE_FILES = ["x.a", "y.b", "z.c", "*.a", "xy.a", "x.A", "xzzy.a", "", "x.", "ab.b", "x.a.b", "a.cdr", "r1.b", "x5.a",
+              "[.a", "x[.a", "r[2].b", "-.a", "d.a",
+              # directory parts (`*` crosses `/`, nothing is anchored to the base name) and dot files
+              "d/x.a", "/t/d/x.a", "d/e/x.b", ".a", "d/.b"]
 LANG_BASES = ["ab", "cd"]
 WIDE_BASES = ["ab", "cd", "e-1", "f_g", "any", "textx"]
 EP_SMALL = [[100, "Ep", "*.a", "f"]]
 GEP_SMALL = [[200, "any", "dot"], [201, "Ep", "Java"]]
+
+
+ODD_PATTERNS = ["", "*", "?", None, "a b", "*.*", "[", "]", "[]", "[!]", "[]]", "[!]]", "[a-", "[-]", "[!-]", "[*]", "[?]",
+                "[b-a!x]", "**", "[a][b]", "[ ]"]
 
 
 def lang_universe(bases, patterns, files, ep_names, kinds=("f", 51)):
@@ -380,7 +493,8 @@ def gen_universe(langs, targets):
 LANG_OPS = lang_universe(LANG_BASES, PATTERNS, FILES, ["Ep"])
 GEN_OPS = gen_universe(["ab", "AB", "any", "ANY", "ep"], ["dot", "DOT", "java"])
 LANG_PROBES = [["lang_keys"], ["lang", "AB"], ["lang", "cd"], ["lang", "EP"], ["files", "x.a"], ["files", "y.b"],
-               ["file", "x.a"], ["mm", "ab", 0], ["mm", "CD", 0], ["mm", "ep", 0], ["mm", "Ab", 0]]
+               ["file", "x.a"], ["files", "*.[bc]"], ["file", "*.[bc]"], ["file", "*.a"],
+               ["mm", "ab", 0], ["mm", "CD", 0], ["mm", "ep", 0], ["mm", "Ab", 0]]
 GEN_PROBES = [["gen_keys"], ["gen", "AB", "Dot", False], ["gen", "ab", "JAVA", True], ["gen", "EP", "java", False],
               ["gen", "zz", "DOT", True]]
 
@@ -467,6 +581,10 @@ class Prop(Check):
         "Reg.C26_cache_instance",
         "Reg.C26_cache_not_stale",
         "Reg.C26_glob_self",
+        "Reg.C26_fnmatch_bracket_free",
+        "Reg.C26_fnmatch_self_false",
+        "Reg.C26_pattern_self",
+        "Reg.C26_pattern_self_unique",
     ]
     DRIVER = "Drivers/Reg.lean"
     QUICK_CASES = 1200
@@ -475,13 +593,16 @@ class Prop(Check):
             "import-time state: (i) every call of the universe applied in every distinct abstract registry state reached "
             "breadth-first (complete to the depth stated in `exhaustive`), each followed by a fixed probe suite; (ii) "
             "random histories of 4..24 calls over a wider universe; (iii) a malformed stream (duplicate entry points, "
-            "non-callable / non-meta-model factories, empty names and patterns).  non-trivial = the history exercises at "
+            "non-callable / non-meta-model factories, empty names and patterns, degenerate classes).  Patterns include fnmatch "
+            "character classes (set, negated, range, `]`/`-` members, unclosed `[`, bracketed literal names); every "
+            "*_for_file query universe holds, per pattern in play, the pattern text itself (`file_name_or_pattern`), a file "
+            "derived from it unit by unit, and a near miss.  non-trivial = the history exercises at "
             "least two of: duplicate refused under another spelling, lookup under another spelling, entry point found "
             "after a clear, cache hit, cache refresh, fresh instance for kwargs, file match, `any` fall-back")
     MODELLED = ("hand-modelled: registration.py:114-396 (Reg.step: lazy entry-point load, lower() keys, duplicate refusal, "
                 "clear, metamodel cache with the kwargs rule, languages_for_file) and the abstract map specification "
-                "(Reg.Spec); tie X: call-by-call results of the real module vs Reg.run; fnmatch modelled for patterns "
-                "without '[' (Reg.globMatch); not exhibited: importlib.metadata (entry points are an Env parameter, the "
+                "(Reg.Spec); tie X: call-by-call results of the real module vs Reg.run; fnmatch modelled with character "
+                "classes (Reg.fnMatch = fnmatch.translate of CPython 3.12; Reg.globMatch is its '['-free fragment); not exhibited: importlib.metadata (entry points are an Env parameter, the "
                 "harness substitutes `registration.entry_points`), non-ASCII case mapping, exceptions raised inside user "
                 "factories")
     ASSUMPTIONS = [
@@ -489,7 +610,8 @@ class Prop(Check):
         "installed packages register pairwise distinct (case-folded) language names and (language, target) pairs "
         "(Env.Ok); with clashing entry points the first API call raises and the registry stays partially loaded "
         "(mirrored by the model, outside the property)",
-        "file patterns contain no '[' in the correspondence (the theorems are independent of the matcher)",
+        "a class whose text starts with an empty range followed by '!' (`[b-a!x]`, re-read as a negation by CPython) "
+        "is checked by the oracle only, not sent to the model (the theorems are independent of the matcher)",
         "fnmatch.fnmatch is case-sensitive (POSIX normcase)",
     ]
 
@@ -547,7 +669,7 @@ class Prop(Check):
         eps, geps = [], []
         for i in range(rng.weighted([(0, 2), (1, 4), (2, 3), (3, 1)])):
             base = ["textx", "Ep", "flow-dsl"][i]
-            eps.append([100 + i, rng.choice(variants(base)), rng.choice(WIDE_PATTERNS[:7]), rng.weighted([("f", 5), (60 + i, 2), ("b", 1)])])
+            eps.append([100 + i, rng.choice(variants(base)), rng.choice(PLAIN_PATTERNS[:7] + CLASS_PATTERNS[:6]), rng.weighted([("f", 5), (60 + i, 2), ("b", 1)])])
         pairs = [("any", "dot"), ("textX", "PlantUML"), ("Ep", "dot"), ("flow-dsl", "Java")]
         for i, (l, t) in enumerate(rng.sample(pairs, rng.randint(0, 3))):
             geps.append([200 + i, l, t])
@@ -559,8 +681,16 @@ class Prop(Check):
         bases = rng.sample(WIDE_BASES, rng.randint(2, 4)) + [e[1].lower() for e in eps]
         targets = rng.sample(["dot", "java", "PlantUML", "x-y"], rng.randint(1, 3)) + [g[2] for g in geps]
         glangs = bases[:2] + ["any"] + [g[1] for g in geps]
-        patterns = rng.sample(WIDE_PATTERNS, 4) + [e[2] for e in eps]
-        files = rng.sample(WIDE_FILES, 4)
+        patterns = rng.sample(PLAIN_PATTERNS, 2) + rng.sample(CLASS_PATTERNS, 2) + [e[2] for e in eps]
+        # queries are derived from the patterns in play: the pattern text itself, a file built from
+        # it, a near miss — plus unrelated names
+        files = rng.sample(WIDE_FILES, 2)
+        for p in patterns:
+            if p is None:
+                continue
+            for f in (p, derive_file(p, rng), derive_file(p, rng, miss=True)):
+                if rng.chance(0.6) and f not in files:
+                    files.append(f)
         length = length or rng.randint(4, 24)
         ops, alt = [], []
         mode = rng.weighted([("mixed", 5), ("lang", 4), ("gen", 2)])
@@ -623,13 +753,13 @@ class Prop(Check):
         for _ in range(rng.randint(3, 12)):
             t = rng.weighted([("reg_lang", 4), ("lang", 3), ("mm", 3), ("files", 2), ("file", 1), ("reg_gen", 2), ("gen", 2)])
             if t == "reg_lang":
-                ops.append([t, 0, rng.choice(odd), rng.choice(["", "*", "?", None, "a b", "*.*"]), rng.choice(["f", "n", "b", 51])])
+                ops.append([t, 0, rng.choice(odd), rng.choice(ODD_PATTERNS), rng.choice(["f", "n", "b", 51])])
             elif t == "lang":
                 ops.append([t, rng.choice(odd)])
             elif t == "mm":
                 ops.append([t, rng.choice(odd), rng.below(3)])
             elif t in ("files", "file"):
-                ops.append([t, rng.choice(odd)])
+                ops.append([t, rng.choice(odd + [p for p in ODD_PATTERNS if p is not None])])
             elif t == "reg_gen":
                 ops.append([t, 0, rng.choice(odd), rng.choice(odd)])
             else:
@@ -818,11 +948,16 @@ class Prop(Check):
 
     def ascii_only(self, case, obs):
         eps, geps = self.env_of(case, obs)
-        return all(s is None or (isinstance(s, str) and s.isascii() and "[" not in s)
+        return all(s is None or (isinstance(s, str) and s.isascii())
                    for x in list(case["ops"]) + list(eps) + list(geps) for s in x if not isinstance(s, (int, bool)))
 
+    def patterns_modelled(self, case, obs):
+        eps, _ = self.env_of(case, obs)
+        pats = [d[2] for d in eps] + [op[3] for op in case["ops"] if op[0] == "reg_lang"]
+        return not any(isinstance(p, str) and outside_model(p) for p in pats)
+
     def model_req(self, case, obs):
-        if not self.ascii_only(case, obs):
+        if not self.ascii_only(case, obs) or not self.patterns_modelled(case, obs):
             return None
         eps, geps = self.env_of(case, obs)
         if not Ref(eps, geps).ok_env:
